@@ -816,6 +816,10 @@ func (e *Env) evalCall(n *ast.CallExpr) Val {
 		return boolVal(Select(Sym("Alloc!0", ArrSort(SInt, SBool)), arg(0).C[0]))
 	case "allocated":
 		return boolVal(Select(e.st.heapGet("Alloc", ArrSort(SInt, SBool)), arg(0).C[0]))
+	case "chcap":
+		return intVal(Select(e.st.heapGet("ChCap", ArrSort(SInt, SInt)), arg(0).C[0]))
+	case "chlen":
+		return intVal(Select(e.st.heapGet("ChLen", ArrSort(SInt, SInt)), arg(0).C[0]))
 	case "closed":
 		return boolVal(Select(e.st.heapGet("ChClosed", ArrSort(SInt, SBool)), arg(0).C[0]))
 	case "values":
